@@ -80,6 +80,7 @@ type blockObs struct {
 	Set       []member `json:"set"`    // state.Validators afterwards, in the set's own order
 	Sorted    bool     `json:"sorted"` // strictly ascending by address (⇒ no duplicates)
 	Hash      string   `json:"hash"`   // ValidatorSet.Hash()
+	Last      []member `json:"last"`   // state.LastValidators afterwards: the set the replica records as having been in force at the block's height
 	Pending   int      `json:"pending"`
 	Txs       []txObs  `json:"txs"`
 }
@@ -418,6 +419,9 @@ func (r *replica) apply(blk *gtypes.Block, ph gtypes.PartSetHeader) blockObs {
 	o.Height = r.st.LastBlockHeight
 	o.Set, o.Sorted = describeSet(r.st.Validators)
 	o.Hash = fmt.Sprintf("%x", r.st.Validators.Hash())
+	if err == nil && !p && r.st.LastValidators != nil {
+		o.Last, _ = describeSet(r.st.LastValidators)
+	}
 	o.Pending = len(r.plug.ChangedValidators)
 	return o
 }
